@@ -5,6 +5,7 @@ import (
 	"encoding/json"
 	"errors"
 	"fmt"
+	"math"
 	"strconv"
 	"strings"
 	"testing"
@@ -361,7 +362,7 @@ func TestCheck(t *testing.T) {
 	})
 
 	r.Phase(fmt.Sprintf("W: %d conventional special texts (empty, null, nil, 0000-00-00, now, today, ...) x rules x limits through every entry point", len(ref.ConventionalTexts)), func() {
-		for _, lim := range []int{0, 15, 3} {
+		for _, lim := range []int{0, 15, 3, math.MaxInt, math.MaxInt - 1, math.MaxInt - 63, 1 << 31, 1 << 32} {
 			restore := setLimit(lim)
 			r.Serial(func(w *vkit.W) {
 				for _, text := range ref.ConventionalTexts {
